@@ -807,7 +807,8 @@ impl<'a> Gen<'a> {
         // vector filter
         let vf = self.name("vf");
         push!(self, json!(["kfv_new", vf]));
-        let n = 1 + self.rng.usize(3);
+        // (one episode in sixteen uses a long point vector: every element must still be the result for that element, in order)
+        let n = if self.rng.chance(1.0 / 16.0) { *self.rng.pick(&[1024usize, 1025, 2048, 3000]) } else { 1 + self.rng.usize(3) };
         let pts = |g: &mut Gen| json!((0..n).map(|_| vec![g.fl(0.0, 10.0), g.fl(0.0, 10.0)]).collect::<Vec<_>>());
         let mut vs = self.name("vs");
         let p0 = pts(self);
